@@ -83,6 +83,8 @@ def gen_broker_case(rng, stream='valid', n_ops=None, exact=False, fee=None, npf=
                 price[a] = (price[a] * (1 + rng.choice([1, -1, 2]) * rng.choice([1e-6, 4e-6, 9e-6])) if rng.random() < 0.15
                             else max(0.5, price[a] * (1 + rng.uniform(-0.03, 0.03))))
                 spread = rng.choice([0.01, 0.05, price[a] * 0.001])
+            if rng.random() < 0.08:
+                spread = -min(spread, price[a] / 2)          # a crossed quote: ask below bid
             quotes.append([tt, a, price[a], price[a] + spread])
 
     while len(ops) < n_ops:
